@@ -24,6 +24,8 @@ JB == {[Default EXCEPT !.fam = "B", !.extra = ex, !.pat = pt, !.flags = fl] :
 JC == {[Default EXCEPT !.fam = "C", !.gsel = g, !.osel = o, !.rsel = r, !.version = ver] :
          g \in 0..2, o \in 0..2, r \in 0..1, ver \in {<<0, 0, 0>>, <<2024, 12, 31>>, <<9999, 1, 9>>}}
 JD == {[Default EXCEPT !.fam = "D", !.tshape = ts, !.gshape = ts, !.dshape = ts] : ts \in Shapes}
+      \* a term WITHOUT parents whose name line closes its stanza (no is_a, no further tag): empty name, trailing blank, multi-byte
+      \cup {[Default EXCEPT !.fam = "D", !.pat = 1, !.tshape = ts, !.extra = {}] : ts \in {"empty", "trail", "nonascii", "colon"}}
 
 Onts == (IF "B" \in Families THEN JB ELSE {}) \cup (IF "C" \in Families THEN JC ELSE {}) \cup (IF "D" \in Families THEN JD ELSE {})
 
